@@ -2,21 +2,1489 @@
 
 package agreement
 
-import (
-	"fmt"
-	"testing"
+// PlayerDrive: single-node, event-driven correspondence harness for PlayerM (lean/AlgoVerif/Model/Player.lean) and the
+// checks C03 and C07.  One REAL rootRouter + player is fed through rootRouter.submitTop (as the package tests do) with
+// generated event lists; after every event the canonical action list and the player fields are printed.
+//
+// Symbolic ids on the line protocol
+//   sender n       address with big-endian n in bytes 0..7 (bytes.Compare order = numeric order)
+//   value v        0 = bottom; v = op*1000 + round*10 + k: the proposalValue of the REAL payload
+//                  {Block{Round: round, TimeStamp: v}, OriginalPeriod: op, OriginalProposer: addr(1000+k)}
+//   payload v:r    that payload (r = its block round, always (v%1000)/10)
+//   cred c         proposal-vote credential of rank c: real committee.Credential values pre-sorted by lowestOutput, so
+//                  Cred.Less is < on ranks
+//   weights        Cred.Weight; the unauthenticated credential's Proof bytes carry (sender, weight, rank) so that printed
+//                  bundles / relayed votes can be mapped back
+// Votes carry no real signatures: the router only ever sees *verified* events here (as in player_test.go).
+//
+// Op grammar (space separated, decimal)
+//   reset softT certT nextT lateT redoT downT dyn f0 fN d0 dN extra lambdaF lag round period step
+//   v  verified bad r p s sender weight value          vote{Present,Verified} of a voting step
+//   pv verified bad sender r p value cred idx tail     proposal-vote; idx = TaskIndex (verified), tail = - | v:r (present)
+//   pl verified bad value round own                    payload{Present,Verified}; own = no message handle
+//   b  verified bad r p s value s:w,..|- s:w:p0:p1,..|-   bundle{Present,Verified}
+//   t entropy | ft entropy | ri round | ck r p s err   timeout, fast timeout, round interruption, checkpoint
+//   dump                                               canonical dump of the whole live (player, router)
+//   persist msgp|reflect                               REAL encode + decode; prints the decoded (actions, player, router);
+//                                                      the decoded router becomes the "shadow" that receives every later event too
+//   bad: 0 ok, 1 Err set, 2 Cancelled, 3 Proto.Err set
+// Result line:  <actions> | <player>  ||  <shadow actions | shadow player, or ->   [## c03=…  when an ensure was emitted]
 
+import (
+	"bytes"
+	"encoding/binary"
+	"fmt"
+	"io"
+	"sort"
+	"strconv"
+	"strings"
+	"testing"
+	"time"
+
+	"github.com/algorand/go-algorand/config"
+	"github.com/algorand/go-algorand/crypto"
+	"github.com/algorand/go-algorand/data/basics"
+	"github.com/algorand/go-algorand/data/committee"
+	"github.com/algorand/go-algorand/logging"
 	"github.com/algorand/go-algorand/protocol"
+	"github.com/algorand/go-algorand/util/timers"
+	"github.com/algorand/go-algorand/zz_verif_tools/vh"
 )
 
-func TestVerifPlayerProbe(t *testing.T) {
-	const r = round(10)
-	plyr, pM, helper := setupP(t, r, 5, soft)
-	_ = plyr
-	pV := helper.MakeRandomProposalValue()
-	b := helper.MakeVerifiedBundle(t, r, 2, cert, *pV)
-	e := messageEvent{T: bundleVerified, Input: message{Bundle: b, UnauthenticatedBundle: b.U}, Proto: ConsensusVersionView{Version: protocol.ConsensusCurrentVersion}}
-	err, panicErr := pM.transition(e)
-	fmt.Printf("PROBE err=%v panic=%v\n", err, panicErr)
-	fmt.Printf("PROBE player=%+v\n", plyr.Round)
+// ------------------------------------------------------------------------------------------------ symbols
+
+func verifPlAddr(id uint64) (a basics.Address) {
+	binary.BigEndian.PutUint64(a[0:8], id)
+	return
+}
+
+func verifPlAddrID(a basics.Address) string {
+	id := binary.BigEndian.Uint64(a[0:8])
+	if verifPlAddr(id) != a {
+		return "BADADDR"
+	}
+	return strconv.FormatUint(id, 10)
+}
+
+type verifPlSym struct {
+	vals     map[uint64]proposalValue
+	ids      map[proposalValue]uint64
+	creds    []committee.Credential
+	credRank map[crypto.Digest]int
+}
+
+var verifPlSymbols *verifPlSym
+
+func verifPlSyms() *verifPlSym {
+	if verifPlSymbols != nil {
+		return verifPlSymbols
+	}
+	y := &verifPlSym{vals: map[uint64]proposalValue{}, ids: map[proposalValue]uint64{}, credRank: map[crypto.Digest]int{}}
+	type cand struct {
+		c committee.Credential
+		d crypto.Digest
+	}
+	var cs []cand
+	for i := 0; i < 256; i++ {
+		var c committee.Credential
+		c.Weight = 1
+		binary.BigEndian.PutUint64(c.VrfOut[0:8], uint64(i)+1)
+		c.VrfOut[31] = 0x7e
+		cs = append(cs, cand{c, c.LowestOutputDigest()})
+	}
+	sort.Slice(cs, func(i, j int) bool { return bytes.Compare(cs[i].d[:], cs[j].d[:]) < 0 })
+	for k := 0; k < 64; k++ {
+		y.creds = append(y.creds, cs[k].c)
+		y.credRank[cs[k].c.VrfOut] = k
+	}
+	verifPlSymbols = y
+	return y
+}
+
+func (y *verifPlSym) payload(v uint64) proposal {
+	var up unauthenticatedProposal
+	up.Block.BlockHeader.Round = basics.Round((v % 1000) / 10)
+	up.Block.BlockHeader.TimeStamp = int64(v)
+	up.OriginalPeriod = period(v / 1000)
+	up.OriginalProposer = verifPlAddr(1000 + v%10)
+	return proposal{unauthenticatedProposal: up}
+}
+
+func (y *verifPlSym) value(v uint64) proposalValue {
+	if v == 0 {
+		return bottom
+	}
+	if pv, ok := y.vals[v]; ok {
+		return pv
+	}
+	pv := y.payload(v).value()
+	y.vals[v] = pv
+	y.ids[pv] = v
+	return pv
+}
+
+func (y *verifPlSym) valueID(pv proposalValue) string {
+	if pv == bottom {
+		return "0"
+	}
+	if id, ok := y.ids[pv]; ok {
+		return strconv.FormatUint(id, 10)
+	}
+	return "BADVAL"
+}
+
+func (y *verifPlSym) payloadStr(up unauthenticatedProposal) string {
+	return y.valueID(up.value()) + ":" + strconv.FormatUint(uint64(up.Round()), 10)
+}
+
+// unauthenticated credential: Proof = sender ‖ weight ‖ 0xC7 ‖ … ‖ rank
+func verifPlUCred(sender, weight, rank uint64) (u committee.UnauthenticatedCredential) {
+	binary.BigEndian.PutUint64(u.Proof[0:8], sender)
+	binary.BigEndian.PutUint64(u.Proof[8:16], weight)
+	u.Proof[16] = 0xC7
+	binary.BigEndian.PutUint64(u.Proof[24:32], rank)
+	return
+}
+
+func verifPlCredWeight(sender basics.Address, c committee.UnauthenticatedCredential) string {
+	if c.Proof[16] != 0xC7 || verifPlAddr(binary.BigEndian.Uint64(c.Proof[0:8])) != sender {
+		return "BADCRED"
+	}
+	return strconv.FormatUint(binary.BigEndian.Uint64(c.Proof[8:16]), 10)
+}
+
+func verifPlCredRank(c committee.UnauthenticatedCredential) string {
+	if c.Proof[16] != 0xC7 {
+		return "BADCRED"
+	}
+	return strconv.FormatUint(binary.BigEndian.Uint64(c.Proof[24:32]), 10)
+}
+
+func (y *verifPlSym) vote(sender, weight, value uint64, r round, p period, s step) vote {
+	var v vote
+	v.R = rawVote{Sender: verifPlAddr(sender), Round: r, Period: p, Step: s, Proposal: y.value(value)}
+	v.Cred = committee.Credential{Weight: weight, UnauthenticatedCredential: verifPlUCred(sender, weight, 0)}
+	binary.BigEndian.PutUint64(v.Sig.Sig[0:8], sender)
+	binary.BigEndian.PutUint64(v.Sig.Sig[8:16], value)
+	return v
+}
+
+func (y *verifPlSym) pvote(sender, value, rank uint64, r round, p period) vote {
+	var v vote
+	v.R = rawVote{Sender: verifPlAddr(sender), Round: r, Period: p, Step: propose, Proposal: y.value(value)}
+	v.Cred = y.creds[rank%64]
+	v.Cred.UnauthenticatedCredential = verifPlUCred(sender, 1, rank)
+	binary.BigEndian.PutUint64(v.Sig.Sig[0:8], sender)
+	binary.BigEndian.PutUint64(v.Sig.Sig[8:16], value)
+	return v
+}
+
+func (y *verifPlSym) pvStr(r rawVote, c committee.UnauthenticatedCredential) string {
+	return fmt.Sprintf("%s.%d.%d.%s.%s", verifPlAddrID(r.Sender), r.Round, r.Period, y.valueID(r.Proposal), verifPlCredRank(c))
+}
+
+// ------------------------------------------------------------------------------------------------ protocol versions
+
+type verifPlParams struct {
+	softT, certT, nextT, lateT, redoT, downT uint64
+	dyn                                      bool
+}
+
+func verifPlProto(q verifPlParams) protocol.ConsensusVersion {
+	cv := protocol.ConsensusVersion(fmt.Sprintf("verif-pl-%d-%d-%d-%d-%d-%d-%v", q.softT, q.certT, q.nextT, q.lateT, q.redoT, q.downT, q.dyn))
+	if _, ok := config.Consensus[cv]; !ok {
+		p := config.Consensus[protocol.ConsensusCurrentVersion]
+		p.SoftCommitteeThreshold = q.softT
+		p.CertCommitteeThreshold = q.certT
+		p.NextCommitteeThreshold = q.nextT
+		p.LateCommitteeThreshold = q.lateT
+		p.RedoCommitteeThreshold = q.redoT
+		p.DownCommitteeThreshold = q.downT
+		p.DynamicFilterTimeout = q.dyn
+		config.Consensus[cv] = p
+	}
+	return cv
+}
+
+func verifPlResetLine(q verifPlParams, r, p, s uint64) string {
+	cv := verifPlProto(q)
+	pr := config.Consensus[cv]
+	dyn := 0
+	if q.dyn {
+		dyn = 1
+	}
+	return fmt.Sprintf("reset %d %d %d %d %d %d %d %d %d %d %d %d %d %d %d %d %d", q.softT, q.certT, q.nextT, q.lateT, q.redoT, q.downT, dyn,
+		int64(pr.AgreementFilterTimeoutPeriod0), int64(pr.AgreementFilterTimeout), int64(pr.AgreementDeadlineTimeoutPeriod0),
+		int64(defaultDeadlineTimeout), int64(recoveryExtraTimeout), int64(pr.FastRecoveryLambda), uint64(credentialRoundLag), r, p, s)
+}
+
+// ------------------------------------------------------------------------------------------------ one machine
+
+type verifPlMachine struct {
+	router *rootRouter
+	plyr   player
+}
+
+func verifPlPanic(r interface{}) string {
+	msg := fmt.Sprint(r)
+	if e, ok := r.(interface{ String() (string, error) }); ok { // *logrus.Entry
+		if s, err := e.String(); err == nil {
+			msg = s
+		}
+	}
+	switch {
+	case strings.Contains(msg, "nil pointer dereference"):
+		return "PANIC nil"
+	case strings.Contains(msg, "precondition violated"), strings.Contains(msg, "postcondition violated"):
+		return "PANIC contract"
+	case strings.Contains(msg, "too many equivocators"), strings.Contains(msg, "more than value reached"), strings.Contains(msg, "index out of range"),
+		strings.Contains(msg, "no votes present"), strings.Contains(msg, "invalid vote passed"), strings.Contains(msg, "not enough votes"):
+		return "PANIC tracker"
+	case strings.Contains(msg, "too many assemblers"):
+		return "PANIC assemblers"
+	case strings.Contains(msg, "bad round"):
+		return "PANIC badround"
+	case strings.Contains(msg, "interface conversion"):
+		return "PANIC cast"
+	}
+	if len(msg) > 160 {
+		msg = msg[:160]
+	}
+	return "PANIC other " + strings.ReplaceAll(msg, "\n", " ")
+}
+
+// ------------------------------------------------------------------------------------------------ executor
+
+type verifPlExec struct {
+	y         *verifPlSym
+	tr        *tracer
+	q         verifPlParams
+	cv        protocol.ConsensusVersion
+	live      *verifPlMachine
+	shadow    *verifPlMachine
+	last      []action
+	delivered map[string]uint64 // r.p.s.sender.value -> weight of votes delivered as verified
+	nEnsure   int
+	nPersist  int
+}
+
+func (x *verifPlExec) certStr(b unauthenticatedBundle) string {
+	var vs, es []string
+	for _, a := range b.Votes {
+		vs = append(vs, verifPlAddrID(a.Sender)+":"+verifPlCredWeight(a.Sender, a.Cred))
+	}
+	for _, a := range b.EquivocationVotes {
+		es = append(es, fmt.Sprintf("%s:%s:%s:%s", verifPlAddrID(a.Sender), verifPlCredWeight(a.Sender, a.Cred), x.y.valueID(a.Proposals[0]), x.y.valueID(a.Proposals[1])))
+	}
+	return fmt.Sprintf("%d %d %d %s [%s] [%s]", b.Round, b.Period, b.Step, x.y.valueID(b.Proposal), strings.Join(vs, ","), strings.Join(es, ","))
+}
+
+func (x *verifPlExec) uvStr(uv unauthenticatedVote) string {
+	return fmt.Sprintf("%d.%d.%d.%s.%s", uv.R.Round, uv.R.Period, uv.R.Step, verifPlAddrID(uv.R.Sender), x.y.valueID(uv.R.Proposal))
+}
+
+func (x *verifPlExec) compoundStr(m compoundMessage) string {
+	v := "-"
+	if m.Vote != (unauthenticatedVote{}) {
+		v = x.y.pvStr(m.Vote.R, m.Vote.Cred)
+	}
+	return x.y.payloadStr(m.Proposal) + " " + v
+}
+
+func verifPlB01(b bool) string {
+	if b {
+		return "1"
+	}
+	return "0"
+}
+
+func (x *verifPlExec) actStr(a0 action) string {
+	switch a := a0.(type) {
+	case networkAction:
+		switch a.T {
+		case ignore:
+			return "ignore"
+		case disconnect:
+			return "disconnect"
+		case broadcastVotes:
+			type kv struct {
+				k [3]uint64
+				s string
+			}
+			var l []kv
+			for _, uv := range a.UnauthenticatedVotes {
+				id, _ := strconv.ParseUint(x.y.valueID(uv.R.Proposal), 10, 64)
+				l = append(l, kv{[3]uint64{uint64(uv.R.Step), binary.BigEndian.Uint64(uv.R.Sender[0:8]), id}, x.uvStr(uv)})
+			}
+			sort.SliceStable(l, func(i, j int) bool {
+				for t := 0; t < 3; t++ {
+					if l[i].k[t] != l[j].k[t] {
+						return l[i].k[t] < l[j].k[t]
+					}
+				}
+				return false
+			})
+			var ss []string
+			for _, e := range l {
+				ss = append(ss, e.s)
+			}
+			return "bcastVotes [" + strings.Join(ss, ",") + "]"
+		case relay, broadcast:
+			pre := "relay"
+			if a.T == broadcast {
+				pre = "bcast"
+			}
+			switch a.Tag {
+			case protocol.AgreementVoteTag:
+				return pre + "Vote " + x.uvStr(a.UnauthenticatedVote)
+			case protocol.VoteBundleTag:
+				return pre + "Bundle " + x.certStr(a.UnauthenticatedBundle)
+			case protocol.ProposalPayloadTag:
+				return pre + "Compound " + x.compoundStr(a.CompoundMessage)
+			}
+		}
+		return "BADNET " + a.String()
+	case cryptoAction:
+		switch a.T {
+		case verifyVote:
+			return fmt.Sprintf("verifyVote %d %d %d", a.Round, a.Period, a.TaskIndex)
+		case verifyPayload:
+			return fmt.Sprintf("verifyPayload %d %d %s %s", a.Round, a.Period, verifPlB01(a.Pinned), x.y.payloadStr(a.M.UnauthenticatedProposal))
+		case verifyBundle:
+			return fmt.Sprintf("verifyBundle %d %d %d", a.Round, a.Period, a.Step)
+		}
+		return "BADCRYPTO"
+	case ensureAction:
+		return "ensure " + x.y.payloadStr(a.Payload.u()) + " " + x.certStr(unauthenticatedBundle(a.Certificate))
+	case stageDigestAction:
+		return "stageDigest " + x.certStr(unauthenticatedBundle(a.Certificate))
+	case rezeroAction:
+		return fmt.Sprintf("rezero %d", a.Round)
+	case pseudonodeAction:
+		switch a.T {
+		case attest:
+			return fmt.Sprintf("attest %d %d %d %s", a.Round, a.Period, a.Step, x.y.valueID(a.Proposal))
+		case assemble:
+			return fmt.Sprintf("assemble %d %d", a.Round, a.Period)
+		case repropose:
+			return fmt.Sprintf("repropose %d %d %s", a.Round, a.Period, x.y.valueID(a.Proposal))
+		}
+		return "BADPSEUDO"
+	case checkpointAction:
+		return fmt.Sprintf("checkpoint %d %d %d %s", a.Round, a.Period, a.Step, verifPlB01(a.Err != nil))
+	}
+	return fmt.Sprintf("BADACTION %T", a0)
+}
+
+func (x *verifPlExec) actsStr(as []action) string {
+	if len(as) == 0 {
+		return "none"
+	}
+	var ss []string
+	for _, a := range as {
+		ss = append(ss, x.actStr(a))
+	}
+	return strings.Join(ss, "; ")
+}
+
+func (x *verifPlExec) playerStr(p player) string {
+	var ks []uint64
+	for k := range p.Pending.Pending {
+		ks = append(ks, k)
+	}
+	sort.Slice(ks, func(i, j int) bool { return ks[i] < ks[j] })
+	var pd []string
+	for _, k := range ks {
+		t := "-"
+		if e := p.Pending.Pending[k]; e != nil {
+			t = x.y.payloadStr(e.Input.UnauthenticatedProposal)
+		}
+		pd = append(pd, fmt.Sprintf("%d:%s", k, t))
+	}
+	s := fmt.Sprintf("R=%d P=%d S=%d LC=%d D=%d/%d N=%s F=%d PN=%d PD=[%s]", p.Round, p.Period, p.Step, p.LastConcluding, int64(p.Deadline.Duration), p.Deadline.Type,
+		verifPlB01(p.Napping), int64(p.FastRecoveryDeadline), p.Pending.PendingNext, strings.Join(pd, ","))
+	if p.OldDeadline != 0 {
+		s += fmt.Sprintf(" OLD=%d", int64(p.OldDeadline))
+	}
+	return s
+}
+
+func verifPlSortedAddrs[V any](m map[basics.Address]V) []basics.Address {
+	ks := make([]basics.Address, 0, len(m))
+	for k := range m {
+		ks = append(ks, k)
+	}
+	sort.Slice(ks, func(i, j int) bool { return bytes.Compare(ks[i][:], ks[j][:]) < 0 })
+	return ks
+}
+
+func (x *verifPlExec) voteStr(key basics.Address, v vote) string {
+	s := fmt.Sprintf("%s:%d:%s", verifPlAddrID(v.R.Sender), v.Cred.Weight, x.y.valueID(v.R.Proposal))
+	if key != v.R.Sender {
+		s += "!KEY"
+	}
+	return s
+}
+
+func (x *verifPlExec) sortedValues(n int, each func(func(proposalValue))) []proposalValue {
+	type kv struct {
+		id uint64
+		v  proposalValue
+	}
+	var keys []kv
+	each(func(v proposalValue) {
+		id, err := strconv.ParseUint(x.y.valueID(v), 10, 64)
+		if err != nil {
+			id = ^uint64(0)
+		}
+		keys = append(keys, kv{id, v})
+	})
+	sort.Slice(keys, func(i, j int) bool { return keys[i].id < keys[j].id })
+	out := make([]proposalValue, 0, n)
+	for _, k := range keys {
+		out = append(out, k.v)
+	}
+	return out
+}
+
+func (x *verifPlExec) trackerStr(t *voteTracker, r round, p period, s step) string {
+	var vs, cs, es []string
+	for _, k := range verifPlSortedAddrs(t.Voters) {
+		v := t.Voters[k]
+		e := x.voteStr(k, v)
+		if v.R.Round != r || v.R.Period != p || v.R.Step != s {
+			e += "!RPS"
+		}
+		vs = append(vs, e)
+	}
+	for _, pv := range x.sortedValues(len(t.Counts), func(f func(proposalValue)) {
+		for v := range t.Counts {
+			f(v)
+		}
+	}) {
+		c := t.Counts[pv]
+		var inner []string
+		for _, a := range verifPlSortedAddrs(c.Votes) {
+			inner = append(inner, x.voteStr(a, c.Votes[a]))
+		}
+		cs = append(cs, fmt.Sprintf("%s:%d:(%s)", x.y.valueID(pv), c.Count, strings.Join(inner, ",")))
+	}
+	for _, k := range verifPlSortedAddrs(t.Equivocators) {
+		e := t.Equivocators[k]
+		s0 := fmt.Sprintf("%s:%d:%s:%s", verifPlAddrID(e.Sender), e.Cred.Weight, x.y.valueID(e.Proposals[0]), x.y.valueID(e.Proposals[1]))
+		if k != e.Sender {
+			s0 += "!KEY"
+		}
+		if e.Round != r || e.Period != p || e.Step != s {
+			s0 += "!RPS"
+		}
+		es = append(es, s0)
+	}
+	return fmt.Sprintf("V=[%s] C=[%s] E=[%s] EC=%d", strings.Join(vs, ","), strings.Join(cs, ","), strings.Join(es, ","), t.EquivocatorsCount)
+}
+
+func (x *verifPlExec) pvoteStr(v vote) string { return x.y.pvStr(v.R, v.Cred.UnauthenticatedCredential) }
+
+// dump of (player, router); persisted = only what encode writes (rounds >= player.Round, exported fields)
+func (x *verifPlExec) dumpStr(p player, rr *rootRouter, persisted bool) string {
+	var rs []uint64
+	for r := range rr.Children {
+		if persisted && r < p.Round {
+			continue
+		}
+		rs = append(rs, uint64(r))
+	}
+	sort.Slice(rs, func(i, j int) bool { return rs[i] < rs[j] })
+	var rounds []string
+	for _, r := range rs {
+		c := rr.Children[round(r)]
+		if c == nil {
+			rounds = append(rounds, fmt.Sprintf("%d:NIL", r))
+			continue
+		}
+		st := &c.ProposalStore
+		var rel []string
+		var pers []uint64
+		for per := range st.Relevant {
+			pers = append(pers, uint64(per))
+		}
+		sort.Slice(pers, func(i, j int) bool { return pers[i] < pers[j] })
+		for _, per := range pers {
+			rel = append(rel, fmt.Sprintf("%d:%s", per, x.y.valueID(st.Relevant[period(per)])))
+		}
+		var asm []string
+		for _, pv := range x.sortedValues(len(st.Assemblers), func(f func(proposalValue)) {
+			for v := range st.Assemblers {
+				f(v)
+			}
+		}) {
+			ea := st.Assemblers[pv]
+			pipe, payl := "-", "-"
+			if ea.Filled {
+				pipe = x.y.payloadStr(ea.Pipeline)
+			} else if ea.Pipeline.value() != (unauthenticatedProposal{}).value() {
+				pipe = "UNFILLED:" + x.y.payloadStr(ea.Pipeline)
+			}
+			if ea.Assembled {
+				payl = x.y.payloadStr(ea.Payload.u())
+			} else if ea.Payload.u().value() != (unauthenticatedProposal{}).value() {
+				payl = "UNASSEMBLED:" + x.y.payloadStr(ea.Payload.u())
+			}
+			var au []string
+			for _, v := range ea.Authenticators {
+				au = append(au, x.pvoteStr(v))
+			}
+			asm = append(asm, fmt.Sprintf("%s:(%s;%s;%s)", x.y.valueID(pv), pipe, payl, strings.Join(au, "/")))
+		}
+		f := c.VoteTrackerRound.Freshest
+		kind := map[eventType]int{none: 0, softThreshold: 1, certThreshold: 2, nextThreshold: 3}[f.T]
+		fb := f.Bundle
+		frs := fmt.Sprintf("%d %d %d %s", f.Round, f.Period, f.Step, x.y.valueID(f.Proposal))
+		cs := x.certStr(fb)
+		// votes part of certStr only; header from the event itself
+		cs = cs[strings.Index(cs, "["):]
+		if f.T != none && (fb.Round != f.Round || fb.Period != f.Period || fb.Step != f.Step) {
+			cs += "!BUNDLEHDR"
+		}
+		var ps []uint64
+		for per := range c.Children {
+			ps = append(ps, uint64(per))
+		}
+		sort.Slice(ps, func(i, j int) bool { return ps[i] < ps[j] })
+		var periods []string
+		for _, per := range ps {
+			pc := c.Children[period(per)]
+			if pc == nil {
+				periods = append(periods, fmt.Sprintf("%d:NIL", per))
+				continue
+			}
+			t := &pc.ProposalTracker
+			var dup []uint64
+			for a, b := range t.Duplicate {
+				if b {
+					dup = append(dup, binary.BigEndian.Uint64(a[0:8]))
+				} else {
+					dup = append(dup, 999999)
+				}
+			}
+			sort.Slice(dup, func(i, j int) bool { return dup[i] < dup[j] })
+			var ds []string
+			for _, d := range dup {
+				ds = append(ds, strconv.FormatUint(d, 10))
+			}
+			low, late := "-", "-"
+			if t.Freezer.Filled {
+				low = x.pvoteStr(t.Freezer.Lowest)
+			}
+			if !persisted && t.Freezer.hasLowestIncludingLate {
+				late = x.pvoteStr(t.Freezer.lowestIncludingLate)
+			}
+			pcn := pc.ProposalTrackerContract
+			var ss []uint64
+			for s := range pc.Children {
+				ss = append(ss, uint64(s))
+			}
+			sort.Slice(ss, func(i, j int) bool { return ss[i] < ss[j] })
+			var steps []string
+			for _, s := range ss {
+				sc := pc.Children[step(s)]
+				if sc == nil {
+					steps = append(steps, fmt.Sprintf("%d:NIL", s))
+					continue
+				}
+				vc := sc.VoteTrackerContract
+				steps = append(steps, fmt.Sprintf("%d:{%s vc(%d,%s,%s)}", s, x.trackerStr(&sc.VoteTracker, round(r), period(per), step(s)), vc.Step, verifPlB01(vc.StepOk), verifPlB01(vc.Emitted)))
+			}
+			ca := pc.VoteTrackerPeriod.Cached
+			periods = append(periods, fmt.Sprintf("%d:{pt(dup[%s] low=%s fz=%s late=%s stg=%s) ptc(%s%s%s%s) ca(%s,%s) st[%s]}", per, strings.Join(ds, ","), low,
+				verifPlB01(t.Freezer.Frozen), late, x.y.valueID(t.Staging), verifPlB01(pcn.SawOneVote), verifPlB01(pcn.Froze), verifPlB01(pcn.SawSoftThreshold),
+				verifPlB01(pcn.SawCertThreshold), verifPlB01(ca.Bottom), x.y.valueID(ca.Proposal), strings.Join(steps, " ")))
+		}
+		rounds = append(rounds, fmt.Sprintf("%d:{st(rel[%s] pin=%s asm[%s]) fr(%s %d %s %s bp=%s) per[%s]}", r, strings.Join(rel, ","), x.y.valueID(st.Pinned),
+			strings.Join(asm, ","), verifPlB01(c.VoteTrackerRound.Ok), kind, frs, cs, x.y.valueID(fb.Proposal), strings.Join(periods, " ")))
+	}
+	return "P{" + x.playerStr(p) + "} T{" + strings.Join(rounds, " ") + "}"
+}
+
+func (x *verifPlExec) proto(bad uint64) ConsensusVersionView {
+	v := ConsensusVersionView{Version: x.cv}
+	if bad == 3 {
+		v.Err = makeSerErrStr("verif: no consensus version")
+	}
+	return v
+}
+
+func verifPlErr(bad uint64) *serializableError {
+	if bad == 1 {
+		return makeSerErrStr("verif: verification failed")
+	}
+	if bad == 2 {
+		return makeSerErrStr("verif: cancelled")
+	}
+	return nil
+}
+
+func (x *verifPlExec) payloadEvent(verified bool, bad uint64, v uint64, own bool) messageEvent {
+	pp := x.y.payload(v)
+	x.y.value(v)
+	msg := message{Tag: protocol.ProposalPayloadTag, UnauthenticatedProposal: pp.u()}
+	if !own {
+		msg.messageHandle = "verif-handle"
+	}
+	e := messageEvent{T: payloadPresent, Input: msg, Proto: x.proto(bad)}
+	if verified {
+		e.T = payloadVerified
+		e.Input.Proposal = pp
+		e.Err = verifPlErr(bad)
+		e.Cancelled = bad == 2
+	}
+	return e
+}
+
+func verifPlParseVotes(s string) (out [][2]uint64) {
+	if s == "-" {
+		return
+	}
+	for _, t := range strings.Split(s, ",") {
+		f := strings.Split(t, ":")
+		out = append(out, [2]uint64{vh.U(f[0]), vh.U(f[1])})
+	}
+	return
+}
+
+func verifPlParseEqs(s string) (out [][4]uint64) {
+	if s == "-" {
+		return
+	}
+	for _, t := range strings.Split(s, ",") {
+		f := strings.Split(t, ":")
+		out = append(out, [4]uint64{vh.U(f[0]), vh.U(f[1]), vh.U(f[2]), vh.U(f[3])})
+	}
+	return
+}
+
+func (x *verifPlExec) record(r, p, s, sender, value, weight uint64) {
+	x.delivered[fmt.Sprintf("%d.%d.%d.%d.%d", r, p, s, sender, value)] = weight
+}
+
+// event of an op line (nil: not an event op)
+func (x *verifPlExec) event(f []string) event {
+	switch f[0] {
+	case "v":
+		verified, bad := f[1] == "1", vh.U(f[2])
+		r, p, s, sender, w, val := vh.U(f[3]), vh.U(f[4]), vh.U(f[5]), vh.U(f[6]), vh.U(f[7]), vh.U(f[8])
+		v := x.y.vote(sender, w, val, round(r), period(p), step(s))
+		msg := message{messageHandle: "verif-handle", Tag: protocol.AgreementVoteTag, UnauthenticatedVote: v.u()}
+		e := messageEvent{T: votePresent, Input: msg, Proto: x.proto(bad)}
+		if verified {
+			e.T = voteVerified
+			e.Input.Vote = v
+			e.Err = verifPlErr(bad)
+			e.Cancelled = bad == 2
+			if bad == 0 {
+				x.record(r, p, s, sender, val, w)
+			}
+		}
+		return e
+	case "pv":
+		verified, bad := f[1] == "1", vh.U(f[2])
+		sender, r, p, val, rank, idx := vh.U(f[3]), vh.U(f[4]), vh.U(f[5]), vh.U(f[6]), vh.U(f[7]), vh.U(f[8])
+		v := x.y.pvote(sender, val, rank, round(r), period(p))
+		msg := message{messageHandle: "verif-handle", Tag: protocol.AgreementVoteTag, UnauthenticatedVote: v.u()}
+		e := messageEvent{T: votePresent, Input: msg, Proto: x.proto(0)}
+		if verified {
+			e.T = voteVerified
+			e.Input.Vote = v
+			e.Err = verifPlErr(bad)
+			e.Cancelled = bad == 2
+			e.TaskIndex = idx
+		} else if f[9] != "-" {
+			tv := vh.U(strings.Split(f[9], ":")[0])
+			tail := x.payloadEvent(false, 0, tv, false)
+			e.Tail = &tail
+		}
+		return e
+	case "pl":
+		return x.payloadEvent(f[1] == "1", vh.U(f[2]), vh.U(f[3]), f[5] == "1")
+	case "b":
+		verified, bad := f[1] == "1", vh.U(f[2])
+		r, p, s, val := vh.U(f[3]), vh.U(f[4]), vh.U(f[5]), vh.U(f[6])
+		ub := unauthenticatedBundle{Round: round(r), Period: period(p), Step: step(s), Proposal: x.y.value(val)}
+		var b bundle
+		for _, sw := range verifPlParseVotes(f[7]) {
+			v := x.y.vote(sw[0], sw[1], val, round(r), period(p), step(s))
+			ub.Votes = append(ub.Votes, voteAuthenticator{Sender: v.R.Sender, Cred: v.Cred.UnauthenticatedCredential, Sig: v.Sig})
+			b.Votes = append(b.Votes, v)
+			if verified && bad == 0 {
+				x.record(r, p, s, sw[0], val, sw[1])
+			}
+		}
+		for _, q := range verifPlParseEqs(f[8]) {
+			v0 := x.y.vote(q[0], q[1], q[2], round(r), period(p), step(s))
+			v1 := x.y.vote(q[0], q[1], q[3], round(r), period(p), step(s))
+			ub.EquivocationVotes = append(ub.EquivocationVotes, equivocationVoteAuthenticator{Sender: v0.R.Sender, Cred: v0.Cred.UnauthenticatedCredential,
+				Sigs: [2]crypto.OneTimeSignature{v0.Sig, v1.Sig}, Proposals: [2]proposalValue{v0.R.Proposal, v1.R.Proposal}})
+			b.EquivocationVotes = append(b.EquivocationVotes, equivocationVote{Sender: v0.R.Sender, Round: round(r), Period: period(p), Step: step(s), Cred: v0.Cred,
+				Proposals: [2]proposalValue{v0.R.Proposal, v1.R.Proposal}, Sigs: [2]crypto.OneTimeSignature{v0.Sig, v1.Sig}})
+			if verified && bad == 0 {
+				x.record(r, p, s, q[0], q[2], q[1])
+				x.record(r, p, s, q[0], q[3], q[1])
+			}
+		}
+		msg := message{messageHandle: "verif-handle", Tag: protocol.VoteBundleTag, UnauthenticatedBundle: ub}
+		e := messageEvent{T: bundlePresent, Input: msg, Proto: x.proto(bad)}
+		if verified {
+			b.U = ub
+			e.T = bundleVerified
+			e.Input.Bundle = b
+			e.Err = verifPlErr(bad)
+			e.Cancelled = bad == 2
+		}
+		return e
+	case "t":
+		return timeoutEvent{T: timeout, RandomEntropy: vh.U(f[1]), Proto: x.proto(0)}
+	case "ft":
+		return timeoutEvent{T: fastTimeout, RandomEntropy: vh.U(f[1]), Proto: x.proto(0)}
+	case "ri":
+		return roundInterruptionEvent{Round: round(vh.U(f[1])), Proto: x.proto(0)}
+	case "ck":
+		var err *serializableError
+		if f[4] == "1" {
+			err = makeSerErrStr("verif: persist failed")
+		}
+		return checkpointEvent{Round: round(vh.U(f[1])), Period: period(vh.U(f[2])), Step: step(vh.U(f[3])), Err: err}
+	}
+	return nil
+}
+
+func (x *verifPlExec) runOne(m **verifPlMachine, e event) (res string, acts []action) {
+	if *m == nil {
+		return "DEAD", nil
+	}
+	defer func() {
+		if r := recover(); r != nil {
+			res = verifPlPanic(r)
+			acts = nil
+			*m = nil
+		}
+	}()
+	p, as := (*m).router.submitTop(x.tr, (*m).plyr, e)
+	(*m).plyr = p
+	return x.actsStr(as) + " | " + x.playerStr(p), as
+}
+
+// C03 monitor on the REAL ensure action: the structural conditions of Certificate.Authenticate
+func (x *verifPlExec) c03(a ensureAction) string {
+	c := a.Certificate
+	if c.Step != cert {
+		return "BAD:step"
+	}
+	blk := a.Payload.Block
+	if !c.claimsToAuthenticate(blk) {
+		return "BAD:claimsToAuthenticate"
+	}
+	if c.Round != blk.Round() || c.Proposal.BlockDigest != blk.Digest() {
+		return "BAD:round-digest"
+	}
+	if c.Proposal != a.Payload.value() {
+		return "BAD:value"
+	}
+	seen := map[basics.Address]bool{}
+	var weight uint64
+	val := x.y.valueID(c.Proposal)
+	for _, v := range c.Votes {
+		if seen[v.Sender] {
+			return "BAD:dup-sender"
+		}
+		seen[v.Sender] = true
+		w, ok := x.delivered[fmt.Sprintf("%d.%d.%d.%s.%s", c.Round, c.Period, c.Step, verifPlAddrID(v.Sender), val)]
+		if !ok || strconv.FormatUint(w, 10) != verifPlCredWeight(v.Sender, v.Cred) || w == 0 {
+			return "BAD:vote-not-delivered"
+		}
+		weight += w
+	}
+	for _, v := range c.EquivocationVotes {
+		if seen[v.Sender] {
+			return "BAD:dup-sender"
+		}
+		seen[v.Sender] = true
+		if v.Proposals[0] == v.Proposals[1] {
+			return "BAD:eq-same"
+		}
+		for i := 0; i < 2; i++ {
+			w, ok := x.delivered[fmt.Sprintf("%d.%d.%d.%s.%s", c.Round, c.Period, c.Step, verifPlAddrID(v.Sender), x.y.valueID(v.Proposals[i]))]
+			if !ok || strconv.FormatUint(w, 10) != verifPlCredWeight(v.Sender, v.Cred) || w == 0 {
+				return "BAD:eqvote-not-delivered"
+			}
+			if i == 0 {
+				weight += w
+			}
+		}
+	}
+	if !cert.reachesQuorum(config.Consensus[x.cv], weight) {
+		return "BAD:weight"
+	}
+	thr := int(cert.threshold(config.Consensus[x.cv]))
+	if len(c.Votes) > thr || len(c.EquivocationVotes) > thr || len(c.Votes)+len(c.EquivocationVotes) > thr {
+		return "BAD:size"
+	}
+	return "ok"
+}
+
+func (x *verifPlExec) exec(op string) string {
+	f := strings.Fields(op)
+	if len(f) == 0 {
+		return "bad-op"
+	}
+	switch f[0] {
+	case "reset":
+		x.q = verifPlParams{vh.U(f[1]), vh.U(f[2]), vh.U(f[3]), vh.U(f[4]), vh.U(f[5]), vh.U(f[6]), f[7] == "1"}
+		x.cv = verifPlProto(x.q)
+		r, p, s := round(vh.U(f[15])), period(vh.U(f[16])), step(vh.U(f[17]))
+		pl := player{Round: r, Period: p, Step: s, Deadline: Deadline{Duration: FilterTimeout(p, x.cv), Type: TimeoutFilter},
+			lowestCredentialArrivals: makeCredentialArrivalHistory(dynamicFilterCredentialArrivalHistory)}
+		rr := makeRootRouter(pl)
+		x.live = &verifPlMachine{router: &rr, plyr: pl}
+		x.shadow = nil
+		x.last = nil
+		x.delivered = map[string]uint64{}
+		return "ok"
+	case "dump":
+		if x.live == nil {
+			return "DEAD"
+		}
+		return x.dumpStr(x.live.plyr, x.live.router, false)
+	case "persist":
+		if x.live == nil {
+			return "DEAD"
+		}
+		return vh.Catch(func() string {
+			reflect := f[1] == "reflect"
+			clock := timers.MakeMonotonicClock[TimeoutType](time.Date(2015, 1, 2, 5, 6, 7, 8, time.UTC))
+			raw := encode(clock, *x.live.router, x.live.plyr, x.last, reflect)
+			t0 := timers.MakeMonotonicClock[TimeoutType](time.Date(2000, 0, 0, 0, 0, 0, 0, time.UTC))
+			clock2, rr2, p2, a2, err := decode(raw, t0, makeServiceLogger(logging.Base()), reflect)
+			if err != nil {
+				return "PERSIST-DIFF decode error " + err.Error()
+			}
+			x.nPersist++
+			liveView := "A[" + x.actsStr(x.last) + "] " + x.dumpStr(x.live.plyr, x.live.router, true)
+			decoded := "A[" + x.actsStr(a2) + "] " + x.dumpStr(p2, &rr2, true)
+			x.shadow = &verifPlMachine{router: &rr2, plyr: p2}
+			if clock2 == nil || string(clock2.Encode()) != string(clock.Encode()) {
+				return "PERSIST-DIFF clock " + decoded
+			}
+			if liveView != decoded {
+				return "PERSIST-DIFF live=" + liveView + " decoded=" + decoded
+			}
+			return decoded
+		})
+	}
+	e := x.event(f)
+	if e == nil {
+		return "bad-op"
+	}
+	out, as := x.runOne(&x.live, e)
+	x.last = as
+	out2 := "-"
+	if x.shadow != nil {
+		out2, _ = x.runOne(&x.shadow, e)
+	}
+	res := out + " || " + out2
+	for _, a := range as {
+		if ea, ok := a.(ensureAction); ok {
+			x.nEnsure++
+			res += " ## c03=" + x.c03(ea)
+		}
+	}
+	return res
+}
+
+// ------------------------------------------------------------------------------------------------ generator
+
+type verifPlGen struct {
+	rng    *vh.Rng
+	x      *verifPlExec
+	out    *vh.Out
+	n      int      // event ops emitted
+	w      []uint64 // w[i] = weight of sender i+1
+	q      verifPlParams
+	total  uint64
+	hist   []string            // event lines of the current case
+	nextK  map[uint64]uint64   // round -> next k
+	props  map[[2]uint64][]uint64 // (round, period) -> proposed values, lowest credential first
+	known  map[uint64][]uint64 // round -> values used
+	nextCr int
+}
+
+func (g *verifPlGen) emit(line string) {
+	res := g.x.exec(line)
+	g.out.Emit(line, res)
+	f := strings.Fields(line)
+	switch f[0] {
+	case "reset", "dump", "persist":
+	default:
+		g.n++
+		g.hist = append(g.hist, line)
+	}
+}
+
+func (g *verifPlGen) alive() bool { return g.x.live != nil }
+
+func (g *verifPlGen) thr(s uint64) uint64 {
+	switch s {
+	case 1:
+		return g.q.softT
+	case 2:
+		return g.q.certT
+	case 253:
+		return g.q.lateT
+	case 254:
+		return g.q.redoT
+	case 255:
+		return g.q.downT
+	}
+	return g.q.nextT
+}
+
+func (g *verifPlGen) newValue(r, op uint64) uint64 {
+	k := g.nextK[r]%9 + 1
+	g.nextK[r]++
+	v := op*1000 + (r%100)*10 + k
+	g.known[r] = append(g.known[r], v)
+	return v
+}
+
+func (g *verifPlGen) someValue(r, p uint64) uint64 {
+	rg := g.rng
+	if ps := g.props[[2]uint64{r, p}]; len(ps) > 0 && rg.Chance(75) {
+		if rg.Chance(80) {
+			return ps[0]
+		}
+		return ps[rg.Intn(len(ps))]
+	}
+	if ks := g.known[r]; len(ks) > 0 && rg.Chance(70) {
+		return ks[rg.Intn(len(ks))]
+	}
+	return g.newValue(r, p)
+}
+
+func (g *verifPlGen) perm() []int {
+	n := len(g.w)
+	p := make([]int, n)
+	for i := range p {
+		p[i] = i
+	}
+	for i := n - 1; i > 0; i-- {
+		j := g.rng.Intn(i + 1)
+		p[i], p[j] = p[j], p[i]
+	}
+	return p
+}
+
+func (g *verifPlGen) bad() uint64 {
+	if g.rng.Chance(97) {
+		return 0
+	}
+	return uint64(1 + g.rng.Intn(3))
+}
+
+// votes of step s for value v crossing the threshold (or stopping `short` senders early)
+func (g *verifPlGen) quorumLines(r, p, s, v uint64, short int) []string {
+	var lines []string
+	var sum uint64
+	order := g.perm()
+	extra := g.rng.Intn(2)
+	for idx, i := range order {
+		if short > 0 && idx >= len(order)-short {
+			break
+		}
+		if sum >= g.thr(s) {
+			if extra == 0 {
+				break
+			}
+			extra--
+		}
+		sender := uint64(i + 1)
+		if g.rng.Chance(12) {
+			lines = append(lines, fmt.Sprintf("v 0 0 %d %d %d %d %d %d", r, p, s, sender, g.w[i], v))
+		}
+		lines = append(lines, fmt.Sprintf("v 1 %d %d %d %d %d %d %d", g.bad(), r, p, s, sender, g.w[i], v))
+		if g.rng.Chance(6) { // equivocation pair
+			lines = append(lines, fmt.Sprintf("v 1 0 %d %d %d %d %d %d", r, p, s, sender, g.w[i], g.someOther(r, p, v)))
+		}
+		sum += g.w[i]
+	}
+	return lines
+}
+
+func (g *verifPlGen) someOther(r, p, v uint64) uint64 {
+	for t := 0; t < 4; t++ {
+		o := g.someValue(r, p)
+		if o != v {
+			return o
+		}
+	}
+	return g.newValue(r, p)
+}
+
+// a structurally valid bundle for (r, p, s, v)
+func (g *verifPlGen) bundleLine(verified bool, r, p, s, v uint64) string {
+	var vs, es []string
+	var sum uint64
+	for _, i := range g.perm() {
+		if sum >= g.thr(s) {
+			break
+		}
+		sender := uint64(i + 1)
+		if g.rng.Chance(10) && len(vs) > 0 {
+			o := g.someOther(r, p, v)
+			p0, p1 := v, o
+			if g.rng.Bool() {
+				p0, p1 = o, v
+			}
+			es = append(es, fmt.Sprintf("%d:%d:%d:%d", sender, g.w[i], p0, p1))
+		} else {
+			vs = append(vs, fmt.Sprintf("%d:%d", sender, g.w[i]))
+		}
+		sum += g.w[i]
+	}
+	j := func(l []string) string {
+		if len(l) == 0 {
+			return "-"
+		}
+		return strings.Join(l, ",")
+	}
+	ver := 0
+	if verified {
+		ver = 1
+	}
+	return fmt.Sprintf("b %d %d %d %d %d %d %s %s", ver, g.bad(), r, p, s, v, j(vs), j(es))
+}
+
+func (g *verifPlGen) proposalLines(r, p uint64) []string {
+	rg := g.rng
+	n := 1 + rg.Intn(3)
+	var lines []string
+	type pr struct{ v, c, s uint64 }
+	var prs []pr
+	for i := 0; i < n; i++ {
+		var v uint64
+		if p > 0 && rg.Chance(35) && len(g.known[r]) > 0 {
+			v = g.known[r][rg.Intn(len(g.known[r]))] // reproposal
+		} else {
+			v = g.newValue(r, p)
+		}
+		c := uint64(rg.Intn(40))
+		sender := uint64(1 + rg.Intn(len(g.w)+2))
+		prs = append(prs, pr{v, c, sender})
+	}
+	sort.Slice(prs, func(i, j int) bool { return prs[i].c < prs[j].c })
+	key := [2]uint64{r, p}
+	for _, q := range prs {
+		g.props[key] = append(g.props[key], q.v)
+	}
+	for _, i := range verifPlPermN(rg, len(prs)) {
+		q := prs[i]
+		pay := fmt.Sprintf("%d:%d", q.v, (q.v%1000)/10)
+		mode := rg.Intn(10)
+		switch {
+		case mode < 3: // compound message: vote present with the payload as tail, then vote verified
+			lines = append(lines, fmt.Sprintf("pv 0 0 %d %d %d %d %d 0 %s", q.s, r, p, q.v, q.c, pay))
+			lines = append(lines, fmt.Sprintf("pv 1 %d %d %d %d %d %d @IDX -", g.bad(), q.s, r, p, q.v, q.c))
+			if rg.Chance(80) {
+				lines = append(lines, fmt.Sprintf("pl 1 %d %d %d 0", g.bad(), q.v, (q.v%1000)/10))
+			}
+		case mode < 8:
+			if rg.Chance(30) {
+				lines = append(lines, fmt.Sprintf("pv 0 0 %d %d %d %d %d 0 -", q.s, r, p, q.v, q.c))
+			}
+			lines = append(lines, fmt.Sprintf("pv 1 %d %d %d %d %d %d 0 -", g.bad(), q.s, r, p, q.v, q.c))
+			own := 0
+			if rg.Chance(15) {
+				own = 1
+			}
+			if rg.Chance(70) {
+				lines = append(lines, fmt.Sprintf("pl 0 0 %d %d %d", q.v, (q.v%1000)/10, own))
+			}
+			if rg.Chance(75) {
+				lines = append(lines, fmt.Sprintf("pl 1 %d %d %d %d", g.bad(), q.v, (q.v%1000)/10, own))
+			}
+		default: // vote only; the payload may come late
+			lines = append(lines, fmt.Sprintf("pv 1 0 %d %d %d %d %d 0 -", q.s, r, p, q.v, q.c))
+		}
+	}
+	return lines
+}
+
+// perturb a batch: drop, duplicate, swap neighbours, shifted (stale / future) copies
+func (g *verifPlGen) perturb(lines []string) []string {
+	rg := g.rng
+	var out []string
+	for _, l := range lines {
+		if rg.Chance(3) {
+			continue
+		}
+		out = append(out, l)
+		if rg.Chance(6) {
+			out = append(out, l)
+		}
+		if rg.Chance(4) {
+			if s := g.shift(l); s != "" {
+				out = append(out, s)
+			}
+		}
+	}
+	for i := 0; i+1 < len(out); i++ {
+		if rg.Chance(10) {
+			out[i], out[i+1] = out[i+1], out[i]
+		}
+	}
+	return out
+}
+
+// the same vote for a neighbouring period / round
+func (g *verifPlGen) shift(l string) string {
+	f := strings.Fields(l)
+	d := []int64{-2, -1, 1, 2}[g.rng.Intn(4)]
+	adj := func(s string) string {
+		v := int64(vh.U(s)) + d
+		if v < 0 {
+			v = 0
+		}
+		return strconv.FormatInt(v, 10)
+	}
+	switch f[0] {
+	case "v":
+		if g.rng.Bool() {
+			f[4] = adj(f[4])
+		} else {
+			f[3] = adj(f[3])
+		}
+	case "pv":
+		if strings.Contains(l, "@IDX") {
+			return ""
+		}
+		if g.rng.Bool() {
+			f[5] = adj(f[5])
+		} else {
+			f[4] = adj(f[4])
+		}
+	case "b":
+		if g.rng.Bool() {
+			f[4] = adj(f[4])
+		} else {
+			f[3] = adj(f[3])
+		}
+	default:
+		return ""
+	}
+	return strings.Join(f, " ")
+}
+
+func (g *verifPlGen) run(lines []string) {
+	for _, l := range lines {
+		if !g.alive() {
+			return
+		}
+		if strings.Contains(l, "@IDX") {
+			// TaskIndex of the most recent push
+			l = strings.Replace(l, "@IDX", strconv.FormatUint(g.x.live.plyr.Pending.PendingNext, 10), 1)
+		}
+		g.emit(l)
+	}
+}
+
+// one generated case
+func (g *verifPlGen) oneCase(malformed bool, maxEvents int) {
+	rg := g.rng
+	n := 4 + rg.Intn(4)
+	g.w = make([]uint64, n)
+	g.total = 0
+	for i := range g.w {
+		g.w[i] = uint64(1 + rg.Intn(4))
+		if rg.Chance(30) {
+			g.w[i] *= 10
+		}
+		g.total += g.w[i]
+	}
+	frac := func(pct uint64) uint64 {
+		t := (g.total*pct + 99) / 100
+		if t == 0 {
+			t = 1
+		}
+		return t
+	}
+	g.q = verifPlParams{frac(68), frac(70), frac(72), frac(30), frac(66), frac(74), rg.Chance(70)}
+	if rg.Chance(10) {
+		g.q.softT, g.q.certT, g.q.nextT = frac(51), frac(51), frac(51)
+	}
+	g.hist = nil
+	g.nextK = map[uint64]uint64{}
+	g.props = map[[2]uint64][]uint64{}
+	g.known = map[uint64][]uint64{}
+	r0 := uint64(1 + rg.Intn(30))
+	p0 := uint64(0)
+	if rg.Chance(15) {
+		p0 = uint64(rg.Intn(6))
+	}
+	g.emit(verifPlResetLine(g.q, r0, p0, 1))
+	start := g.n
+	for g.alive() && g.n-start < maxEvents {
+		pl := g.x.live.plyr
+		R, P, S := uint64(pl.Round), uint64(pl.Period), uint64(pl.Step)
+		if R > 88 {
+			break
+		}
+		var lines []string
+		if malformed {
+			lines = g.malformedBatch(R, P, S)
+		} else {
+			lines = g.perturb(g.batch(R, P, S))
+		}
+		g.run(lines)
+		if !g.alive() {
+			break
+		}
+		if rg.Chance(10) {
+			g.emit("persist " + []string{"msgp", "reflect"}[rg.Intn(2)])
+		}
+		if rg.Chance(5) {
+			g.emit("dump")
+		}
+	}
+	if g.alive() {
+		g.emit("dump")
+		g.emit("persist " + []string{"msgp", "reflect"}[rg.Intn(2)])
+	}
+}
+
+func (g *verifPlGen) payloadVerified(v uint64) string {
+	return fmt.Sprintf("pl 1 0 %d %d 0", v, (v%1000)/10)
+}
+
+// a protocol-shaped batch for the current (round, period, step)
+func (g *verifPlGen) batch(R, P, S uint64) []string {
+	rg := g.rng
+	var lines []string
+	lowest := func() uint64 {
+		if ps := g.props[[2]uint64{R, P}]; len(ps) > 0 {
+			return ps[0]
+		}
+		return 0
+	}
+	switch c := rg.Intn(100); {
+	case c < 16: // a whole synchronous period: proposals, filter timeout, soft and cert quorum
+		lines = append(lines, g.proposalLines(R, P)...)
+		lines = append(lines, fmt.Sprintf("t %d", rg.U64()))
+		v := lowest()
+		if v == 0 {
+			v = g.someValue(R, P)
+		}
+		lines = append(lines, g.quorumLines(R, P, 1, v, 0)...)
+		if rg.Chance(25) {
+			lines = append(lines, g.payloadVerified(v))
+		}
+		lines = append(lines, g.quorumLines(R, P, 2, v, 0)...)
+		if rg.Chance(60) {
+			lines = append(lines, g.payloadVerified(v)) // late payload
+		}
+	case c < 26:
+		lines = g.proposalLines(R, P)
+	case c < 38:
+		lines = []string{fmt.Sprintf("t %d", rg.U64())}
+		if rg.Chance(30) {
+			lines = append(lines, fmt.Sprintf("t %d", rg.U64()))
+		}
+	case c < 47:
+		lines = g.quorumLines(R, P, 1, g.someValue(R, P), rg.Intn(3)*rg.Intn(2))
+	case c < 56:
+		lines = g.quorumLines(R, P, 2, g.someValue(R, P), rg.Intn(3)*rg.Intn(2))
+	case c < 64: // recovery: next votes for bottom or a value, in this or the previous period
+		s := uint64(3 + rg.Intn(3))
+		if S > 3 && rg.Chance(60) {
+			s = S
+		}
+		v := uint64(0)
+		if rg.Chance(45) {
+			v = g.someValue(R, P)
+		}
+		lines = g.quorumLines(R, P, s, v, rg.Intn(2)*rg.Intn(2))
+	case c < 73: // bundles: soft / cert / next, current, future (fast-forward) or stale period
+		s := []uint64{1, 2, 3, 3, 4, 2}[rg.Intn(6)]
+		p := P
+		switch rg.Intn(8) {
+		case 0, 1:
+			p = P + 1
+		case 2:
+			p = P + 2 + uint64(rg.Intn(3))
+		case 3:
+			if P > 0 {
+				p = P - 1
+			}
+		case 4:
+			if P > 2 && rg.Chance(50) {
+				p = uint64(rg.Intn(int(P)))
+			}
+		}
+		v := g.someValue(R, p)
+		if s >= 3 && rg.Chance(45) {
+			v = 0
+		}
+		if rg.Chance(20) {
+			lines = append(lines, g.bundleLine(false, R, p, s, v))
+		}
+		lines = append(lines, g.bundleLine(true, R, p, s, v))
+		if rg.Chance(40) && v != 0 {
+			lines = append(lines, g.payloadVerified(v))
+		}
+	case c < 78: // fast recovery
+		lines = []string{fmt.Sprintf("ft %d", rg.U64())}
+		if rg.Chance(50) {
+			lines = append(lines, fmt.Sprintf("ft %d", rg.U64()))
+		}
+		if rg.Chance(50) {
+			s := uint64(253 + rg.Intn(3))
+			v := uint64(0)
+			if s != 255 {
+				v = g.someValue(R, P)
+			}
+			lines = append(lines, g.quorumLines(R, P, s, v, rg.Intn(2))...)
+		}
+	case c < 86: // pipelining: proposals, votes, payloads of the next round
+		lines = g.proposalLines(R+1, 0)
+		if rg.Chance(60) {
+			lines = append(lines, g.quorumLines(R+1, 0, uint64(1+rg.Intn(2)), g.someValue(R+1, 0), 0)...)
+		}
+		if rg.Chance(30) {
+			lines = append(lines, g.quorumLines(R+1, 0, 2, g.someValue(R+1, 0), 0)...)
+		}
+	case c < 91: // payload of a known value arrives (late, duplicate, or never announced)
+		v := g.someValue(R, P)
+		if rg.Chance(30) {
+			lines = append(lines, fmt.Sprintf("pl 0 0 %d %d %d", v, (v%1000)/10, rg.Intn(2)))
+		}
+		lines = append(lines, fmt.Sprintf("pl 1 %d %d %d %d", g.bad(), v, (v%1000)/10, rg.Intn(5)/4))
+	case c < 96: // replay of earlier traffic (duplicates, stale)
+		for i := 0; i < 1+rg.Intn(4) && len(g.hist) > 0; i++ {
+			l := g.hist[rg.Intn(len(g.hist))]
+			if !strings.HasPrefix(l, "t ") && !strings.HasPrefix(l, "ft ") && !strings.HasPrefix(l, "ri ") {
+				lines = append(lines, l)
+			}
+		}
+	case c < 98:
+		lines = []string{fmt.Sprintf("ck %d %d %d %d", R, P, S, rg.Intn(4)/3)}
+	default:
+		lines = []string{fmt.Sprintf("ri %d", R+1+uint64(rg.Intn(3)*rg.Intn(2)))}
+	}
+	return lines
+}
+
+// malformed stream: arbitrary coordinates, bottoms where verification forbids them, failed / cancelled verification
+func (g *verifPlGen) malformedBatch(R, P, S uint64) []string {
+	rg := g.rng
+	near := func(x uint64, span int) uint64 {
+		v := int64(x) + int64(rg.Intn(2*span+1)) - int64(span)
+		if v < 0 {
+			v = 0
+		}
+		return uint64(v)
+	}
+	r := near(R, 2)
+	if r > 90 {
+		r = 90
+	}
+	p := near(P, 3)
+	steps := []uint64{1, 1, 2, 2, 3, 4, 5, 9, 252, 253, 254, 255}
+	s := steps[rg.Intn(len(steps))]
+	sender := uint64(1 + rg.Intn(len(g.w)+1))
+	w := uint64(rg.Intn(5))
+	if int(sender) <= len(g.w) && rg.Chance(70) {
+		w = g.w[sender-1]
+	}
+	v := uint64(0)
+	if rg.Chance(80) {
+		v = g.someValue(r, p)
+	}
+	bad := uint64(rg.Intn(4))
+	if rg.Chance(50) {
+		bad = 0
+	}
+	switch rg.Intn(12) {
+	case 0, 1, 2:
+		return []string{fmt.Sprintf("v %d %d %d %d %d %d %d %d", rg.Intn(2), bad, r, p, s, sender, w, v)}
+	case 3, 4:
+		if v == 0 {
+			v = g.newValue(r, p)
+		}
+		return []string{fmt.Sprintf("pv %d %d %d %d %d %d %d %d -", rg.Intn(2), bad%3, sender, r, p, v, rg.Intn(50), rg.Intn(3))}
+	case 5:
+		if v == 0 {
+			v = g.newValue(r, p)
+		}
+		return []string{fmt.Sprintf("pl %d %d %d %d %d", rg.Intn(2), bad%3, v, (v%1000)/10, rg.Intn(2))}
+	case 6:
+		l := g.bundleLine(rg.Chance(80), r, p, s, v)
+		if rg.Chance(15) {
+			f := strings.Fields(l)
+			f[7], f[8] = "-", "-"
+			l = strings.Join(f, " ")
+		}
+		return []string{l}
+	case 7:
+		return []string{fmt.Sprintf("t %d", rg.Biased64())}
+	case 8:
+		return []string{fmt.Sprintf("ft %d", rg.Biased64())}
+	case 9:
+		return []string{fmt.Sprintf("ck %d %d %d %d", r, p, s, rg.Intn(2))}
+	case 10:
+		if rg.Chance(20) {
+			return []string{fmt.Sprintf("ri %d", r)}
+		}
+		return g.quorumLines(r, p, s, v, 0)
+	default:
+		return g.perturb(g.batch(R, P, S))
+	}
+}
+
+// permN on the shared rng
+type verifPlPermer interface{ Intn(int) int }
+
+func verifPlPermN(r verifPlPermer, n int) []int {
+	p := make([]int, n)
+	for i := range p {
+		p[i] = i
+	}
+	for i := n - 1; i > 0; i-- {
+		j := r.Intn(i + 1)
+		p[i], p[j] = p[j], p[i]
+	}
+	return p
+}
+
+// ------------------------------------------------------------------------------------------------ test
+
+func TestVerifPlayer(t *testing.T) {
+	logging.Base().SetOutput(io.Discard)
+	logging.Base().SetLevel(logging.Error)
+	y := verifPlSyms()
+	x := &verifPlExec{y: y, tr: &tracer{log: serviceLogger{logging.Base()}}, delivered: map[string]uint64{}}
+	out := vh.Open("player")
+	defer out.Close()
+	if ops, ok := vh.ReplayOps(); ok {
+		for _, op := range ops {
+			out.Emit(op, x.exec(op))
+		}
+		return
+	}
+	g := &verifPlGen{rng: vh.NewRng(vh.Seed()), x: x, out: out}
+	budget := vh.Budget(3200, 120000)
+	malformedBudget := budget / 6
+	for g.n < budget-malformedBudget {
+		g.oneCase(false, 60+g.rng.Intn(140))
+	}
+	for g.n < budget {
+		g.oneCase(true, 40+g.rng.Intn(80))
+	}
+	t.Logf("player: %d events, %d ensure actions, %d persists", g.n, x.nEnsure, x.nPersist)
 }
